@@ -1,8 +1,8 @@
 SPECIFICATION Spec
 CONSTANTS MaxNum = 3
-  Vals = {"a"}
-  OBJSTM = FALSE
-  SEEKABLE = FALSE
+  Vals = {"a", "b"}
+  OBJSTM = TRUE
+  SEEKABLE = TRUE
   MaxOps = 4
   Threshold = 2
   MaxMembers <- SmallMembers
